@@ -550,3 +550,66 @@ func VH06f_many_subscriptions() {
 	verif.Reach("many-subscriptions-checked")
 	sock.Close()
 }
+
+// VH06g_many_contexts: M (5) contexts of one SUB socket, context i subscribed
+// to topic i and to a topic shared by all; one context (any position, or none)
+// is closed. A publication for every private topic and one for the shared
+// topic arrive: every open context receives exactly its own and the shared one,
+// in arrival order, the closed one nothing, nobody anything else.
+func VH06g_many_contexts() {
+	M := verif.Param("M", 5)
+	lab := "C06/many-contexts"
+	sock := vp.New("sub")
+	side := vt.Listen(sock, "a")
+	p0 := side.Peer("p0")
+	var cs []mangos.Context
+	for i := 0; i < M; i++ {
+		c, err := sock.OpenContext()
+		verif.Assert(err == nil, lab+"/open-context")
+		if err != nil {
+			return
+		}
+		verif.Assert(c.SetOption(mangos.OptionSubscribe, []byte{byte('a' + i)}) == nil, lab+"/subscribe")
+		verif.Assert(c.SetOption(mangos.OptionSubscribe, []byte{'*'}) == nil, lab+"/subscribe-shared")
+		cs = append(cs, c)
+	}
+	closeAt := verif.Choice("close", M+1) - 1
+	if closeAt >= 0 {
+		verif.Assert(cs[closeAt].Close() == nil, lab+"/context-close")
+	}
+	for i := 0; i < M; i++ {
+		p0.Deliver([]byte{byte('a' + i), byte(i)})
+		verif.Quiesce()
+	}
+	p0.Deliver([]byte{'*', 77})
+	verif.Quiesce()
+	for i, c := range cs {
+		if i == closeAt {
+			_, err := c.RecvMsg()
+			verif.Assert(err != nil, lab+"/closed-context-delivers")
+			continue
+		}
+		for k := 0; k < 2; k++ {
+			var m *mangos.Message
+			var err error
+			c := c
+			g := verif.Go("recv", func() { m, err = c.RecvMsg() })
+			verif.Quiesce()
+			verif.Assert(g.Done() && err == nil, lab+"/context-did-not-get-its-publication")
+			if !g.Done() || err != nil {
+				return
+			}
+			if k == 0 {
+				verif.Assert(len(m.Body) == 2 && m.Body[0] == byte('a'+i) && m.Body[1] == byte(i), lab+"/context-got-another-contexts-publication")
+			} else {
+				verif.Assert(len(m.Body) == 2 && m.Body[0] == '*' && m.Body[1] == 77, lab+"/shared-publication-not-delivered-to-every-context")
+			}
+		}
+		c := c
+		g := verif.Go("recv-extra", func() { c.RecvMsg() })
+		verif.Quiesce()
+		verif.Assert(!g.Done(), lab+"/context-got-a-publication-it-did-not-subscribe-to")
+	}
+	verif.Reach("many-contexts-delivered")
+	sock.Close()
+}
